@@ -412,3 +412,33 @@ func stmtTerminates(info *types.Info, s ast.Stmt) bool {
 	}
 	return false
 }
+
+// FuncValueOf resolves an expression used as a function value to the code that
+// runs when it is called: a function literal, a (possibly instantiated) named
+// function or method value of this module, or any of these in parentheses.
+// It returns the type, the body and the types.Info the body is checked in; a
+// nil body means the value is not a function whose source is in the module.
+func FuncValueOf(m *Module, info *types.Info, e ast.Expr) (*ast.FuncType, *ast.BlockStmt, *types.Info) {
+	for depth := 0; depth < 4; depth++ {
+		switch x := unparen(e).(type) {
+		case *ast.FuncLit:
+			return x.Type, x.Body, info
+		case *ast.IndexExpr:
+			e = x.X
+			continue
+		case *ast.IndexListExpr:
+			e = x.X
+			continue
+		case *ast.Ident, *ast.SelectorExpr:
+			if fn, ok := ObjOf(info, x.(ast.Expr)).(*types.Func); ok {
+				if d := m.Decl(fn.Origin()); d != nil && d.Body != nil {
+					if p := m.PkgOf(fn.Origin()); p != nil {
+						return d.Type, d.Body, p.TypesInfo
+					}
+				}
+			}
+		}
+		break
+	}
+	return nil, nil, nil
+}
